@@ -589,3 +589,28 @@ GET_ADD = REG.add(Contract(
         nomatch(View(c, old=True), c.a["mnemonic"].t), appended(View(c), View(c, old=True), c.res.t)))],
     modifies=dict(SEQ_FRAME, mnemonic=None),
     returns=HI, properties=("C15",)))
+
+
+# ---------------------------------------------------------------- __reduce__ (C17)
+def reduce_post(c):
+    s = c.a["self"].t
+    r = c.res
+    if not (isinstance(r, VTuple) and len(r.items) == 3 and isinstance(r.items[1], VTuple) and len(r.items[1].items) == 5
+            and isinstance(r.items[2], VDict) and "mnemonic" in r.items[2].d):
+        return [("reduce-value-has-the-shape (cls, (5 constructor args), {'mnemonic': session})", z3.BoolVal(False))]
+    args, state = r.items[1].items, r.items[2].d
+    E = c.eng
+    return [
+        ("class-of-the-object", r.items[0].tag == z3.Select(c.h("$cls"), s)) if isinstance(r.items[0], VType) else ("class-of-the-object", z3.BoolVal(False)),
+        ("constructor-gets-the-ORIGINAL-mnemonic", E.to_obj(args[0]) == obj_of_str(z3.Select(c.h("original_mnemonic"), s))),
+        ("constructor-gets-unit", E.to_obj(args[1]) == z3.Select(c.h("unit"), s)),
+        ("constructor-gets-value", E.to_obj(args[2]) == z3.Select(c.h("value"), s)),
+        ("constructor-gets-descr", E.to_obj(args[3]) == z3.Select(c.h("descr"), s)),
+        ("constructor-gets-data", E.to_obj(args[4]) == z3.Select(c.h("data"), s)),
+        ("state-restores-the-session-mnemonic", E.to_obj(state["mnemonic"]) == obj_of_str(z3.Select(c.h("mnemonic"), s))),
+    ]
+
+
+REDUCE = REG.add(Contract(
+    "las_items.HeaderItem.__reduce__", params={"self": HI}, ensures=reduce_post,
+    properties=("C17",), noraise=True))
